@@ -715,6 +715,8 @@ package wire
 //@   requires [caches-wellformed] PortalsWF(srv)
 //@   ensures [P-reply] {C06} (result == nil && #nE == old(#nE)) ==> (#nOut == old(#nOut) + 1 && #last == '1')
 //@   ensures [P-error-once] {C06} #nE <= old(#nE) + 1 && #nE >= old(#nE)
+//@   ensures [parse-stores] {C07} (result == nil && #nE == old(#nE) && !#failed && IsDSC(srv.Statements)) ==> (mapdom(DSC(srv.Statements).statements, cstr(arr(old(reader.Msg)), off(old(reader.Msg)))) && fresh(DSC(srv.Statements).statements[cstr(arr(old(reader.Msg)), off(old(reader.Msg)))]))
+//@   ensures [parse-calls-parser-once] {C07 C06} (result == nil && #nE == old(#nE) && !#failed) ==> #nParse == old(#nParse) + 1
 //@   ensures [error-starts-discard] {C06} (#nE > old(#nE) ==> srv.discard) && ((#nE == old(#nE) && !#failed) ==> srv.discard == old(srv.discard))
 //@   ensures [no-Z-unless-Sync] {C06} #nZ == old(#nZ)
 //@   ensures [err-kind] result != nil ==> !isExceeded(result)
@@ -824,6 +826,7 @@ package wire
 //@   ensures [close-removes] {C07} (t == 'C' && !old(srv.discard) && result == nil && #nE == old(#nE) && IsDSC(srv.Statements) && old(mem(arr(reader.Msg), off(reader.Msg))) == 'S') ==> !mapdom(DSC(srv.Statements).statements, cstr(arr(old(reader.Msg)), off(old(reader.Msg)) + 1))
 //@   ensures [close-removes-portal] {C07} (t == 'C' && !old(srv.discard) && result == nil && #nE == old(#nE) && IsDPC(srv.Portals) && old(mem(arr(reader.Msg), off(reader.Msg))) == 'P') ==> !mapdom(DPC(srv.Portals).portals, cstr(arr(old(reader.Msg)), off(old(reader.Msg)) + 1))
 //@   ensures [terminate-stops] {C19} t == 'X' ==> (result != nil && #nTerminate <= old(#nTerminate) + 1 && OutSame() && #nParse == old(#nParse) && #nExec == old(#nExec))
+//@   ensures [terminate-only-on-X] {C19} (t != 'X' ==> #nTerminate == old(#nTerminate)) && #nTerminate <= old(#nTerminate) + 1 && #nTerminate >= old(#nTerminate)
 //@   ensures [terminate-closes] {C19} (t == 'X' && (srv.Server.TerminateConn == nil || #termErrNil)) ==> #connClosed == old(#connClosed) + 1
 //@   ensures [simple-query-one-Z] {C05} (t == 'Q' && result == nil && !old(srv.discard)) ==> (#nZ == old(#nZ) + 1 && #last == 'Z' && (old(#cyc) == 0 ==> #cyc == 0))
 //@   ensures [error-once] {C06 C05} #nE <= old(#nE) + 1 && #nE >= old(#nE)
@@ -851,6 +854,9 @@ package wire
 //@   requires [no-locks-held] {C16} srv.Server.admission.#rheld == 0 && !srv.Server.admission.#wheld && srv.Server.wg.#held == 0
 //@   requires [caches-wellformed] PortalsWF(srv)
 //@   atreturn [terminate-stops] {C19} (t == 'X' && !srv.Server.closing.#aval) ==> result != nil
+//@   atreturn [discard-kept-until-sync] {C06} (old(srv.discard) && t != 'S') ==> (srv.discard || result != nil)
+//@   ensures [terminate-once] {C19} #nTerminate <= old(#nTerminate) + 1 && #nTerminate >= old(#nTerminate)
+//@   ensures [terminate-ends] {C19} #nTerminate > old(#nTerminate) ==> result != nil
 //@   callsite (*wire.Session).handleCommand [registered] {C16} srv.Server.wg.#held == 1 && srv.Server.admission.#rheld == 0 && !srv.Server.admission.#wheld
 //@   ensures [no-progress-stops] {C04} reader.Buffer.#pos < old(reader.Buffer.#pos) + 5 ==> result != nil
 //@   ensures [admission] {C16} old(srv.Server.closing.#aval) ==> (#nParse == old(#nParse) && #nExec == old(#nExec) && #nTerminate == old(#nTerminate))
@@ -869,12 +875,14 @@ package wire
 //@   requires [no-locks-held] {C16} srv.Server.admission.#rheld == 0 && !srv.Server.admission.#wheld && srv.Server.wg.#held == 0
 //@   requires [caches-wellformed] PortalsWF(srv)
 //@   ensures [never-nil] result != nil
+//@   ensures [terminate-once] {C19} #nTerminate <= old(#nTerminate) + 1
 //@   ensures [closed-monotone] #connClosed >= old(#connClosed)
 //@   callsite (*wire.Session).consumeSingleCommand [ready-first] {C12} #nZ >= old(#nZ) + 1 && $ctx == ctx && $reader == reader && $writer == writer && $conn == conn
 //@   modifies ConnEffects(srv, reader, writer, ctx), SharedServer(srv.Server)
 //@   loop 0
 //@     invariant [ok] HOK(srv, reader, writer, ctx) && srv.Server.wg.#wgcnt >= 0
 //@     invariant [no-locks-held] srv.Server.admission.#rheld == 0 && !srv.Server.admission.#wheld && srv.Server.wg.#held == 0
+//@     invariant [no-terminate-yet] #nTerminate == old(#nTerminate)
 //@     invariant [caches-wellformed] PortalsWF(srv)
 //@     invariant [ready-first] #nZ >= old(#nZ) + 1
 //@     invariant [closed-monotone] #connClosed >= old(#connClosed)
@@ -979,6 +987,7 @@ package wire
 //@ func (*Server).handleAuth
 //@   props C01 C12 C04
 //@   requires srv != nil && ctx != nil && WriterReady(writer) && ReaderOK(reader)
+//@   ensures [accept-silent] {C01 C10} ret1 == nil ==> #nE == old(#nE)
 //@   ensures [no-strategy-ok] {C01} (srv.Auth == nil && ret1 == nil) ==> #nAuthOk == old(#nAuthOk) + 1
 //@   ensures [ctx] ret1 == nil ==> (ret0 != nil && CtxInherits(ret0, ctx))
 //@   ensures [no-Z] #nZ == old(#nZ)
@@ -1000,6 +1009,7 @@ package wire
 //@   requires ctx != nil && WriterReady(writer) && ReaderOK(reader)
 //@   ensures [accept-only] {C01} err == nil ==> (#nValidate == old(#nValidate) + 1 && #validOK && #validErrNil)
 //@   ensures [authok-iff] {C01} #nAuthOk == old(#nAuthOk) + (err == nil ? 1 : 0)
+//@   ensures [accept-silent] {C01 C10} err == nil ==> #nE == old(#nE)
 //@   ensures [reject-28] {C01} (#nValidate == old(#nValidate) + 1 && #validErrNil && !#validOK && !#failed) ==> (#nE == old(#nE) + 1 && #E_C == "28P01")
 //@   ensures [window] Advanced(reader.Msg, old(reader.Msg)) || arr(reader.Msg) > old(#alloc)
 //@   ensures [validate-at-most-once] #nValidate <= old(#nValidate) + 1
@@ -1021,6 +1031,8 @@ package wire
 //@   callsite (*wire.Server).handleAuth [auth-on-upgraded] {C11 C01} $reader == reader && $writer == writer && #nOut == old(#nOut) && #nParse == old(#nParse)
 //@   callsite (*wire.Server).handleAuth [writes-on-upgraded] {C11} $writer.Writer == box(conn)
 //@   callsite (*wire.Server).writeParameters [writes-on-upgraded] {C11} $writer.Writer == box(conn)
+//@   callsite (*wire.Server).writeParameters [no-reply-before-session] {C10 C01} #nE == old(#nE) && #nZ == old(#nZ)
+//@   ensures [terminate-once] {C19} #nTerminate <= old(#nTerminate) + 1
 //@   callsite (*wire.Session).consumeCommands [writes-on-upgraded] {C11} $writer.Writer == box(conn) && $conn == conn
 //@   callsite (*wire.Server).writeParameters [authed-before-params] {C01 C12} #nAccept == old(#nAccept) + 1 && #nZ == old(#nZ) && $params == srv.Parameters && $writer == writer
 //@   callsite callback:wire.SessionHandler [session-once-after-auth] {C19 C01} #nAccept == old(#nAccept) + 1 && #nSession == old(#nSession) && #nZ == old(#nZ) && $self == srv.Session
